@@ -638,16 +638,22 @@ func TestVerif_C13_CoordinatedSchedules(t *testing.T) {
 		// (which walks the members under the group's lock) when it is pushed a stream it cannot use
 		R := &fakeClient{id: "R"}
 		R.onPushConn = func(g *group.Group) { g.WallOps("recorder: no usable tracks") }
+		switch rapid.IntRange(0, 7).Draw(t, "aimedSchedule") {
+		case 0, 1:
+			// the statistics page walking the members while a member's loop sets up a connection
+			pauseIn, first, second = "GetStats", "stats", "web-offer"
+		case 2:
+			// a join walking the members' permissions while a recorder is handed the WHIP member's streams
+			pauseIn, first, second = "Permissions", "join", "recorder-asks-whip"
+		case 3:
+			pauseIn, first, second = "Permissions", "join", "recorder-asks-everybody"
+		}
 		if second == "recorder-asks-whip" || second == "recorder-asks-everybody" {
 			ctx, cancel := context.WithTimeout(context.Background(), 10*time.Second)
 			if _, err := W.NewConnection(ctx, []byte(offerSDP)); err != nil {
 				t.Fatalf("VERIF-HARNESS-ERROR: WHIP offer in the set-up: %v", err)
 			}
 			cancel()
-		}
-		if rapid.IntRange(0, 3).Draw(t, "statsVsOffer") == 0 {
-			// the statistics page walking the members while a member's loop sets up a connection
-			pauseIn, first, second = "GetStats", "stats", "web-offer"
 		}
 		currentPlan.Store(fmt.Sprintf("coordinated schedule: %q paused in F.%s, meanwhile %q, group option %s (or the set-up / clean-up around it)", first, pauseIn, second, opt))
 		entered := make(chan struct{}, 1)
